@@ -73,6 +73,14 @@ MinSize(t) ==
          LET RECURSIVE go(_) go(i) == IF i > Len(t.vars) THEN BIG ELSE MinI(FieldsEnd(t.vars[i]), go(i + 1))
          IN CeilMul(EnumDataOffset(t) + go(1), Align(t))
 
+\* the smallest slice in which every variant of an unsized enum fits with empty tails (MinSize is the smallest variant's);
+\* generous slice lengths for enumerating contents start from here
+RoomyMin(t) ==
+  IF t.k = "enum" /\ ~IsSized(t)
+    THEN LET RECURSIVE go(_) go(i) == IF i > Len(t.vars) THEN 0 ELSE MaxI(FieldsEnd(t.vars[i]), go(i + 1))
+         IN CeilMul(EnumDataOffset(t) + go(1), Align(t))
+    ELSE MinSize(t)
+
 \* maximum of a length type, saturated
 LMaxSat(l) == IF l.size = 1 THEN 255 ELSE IF l.size = 2 THEN 65535 ELSE BIG
 
